@@ -83,7 +83,7 @@ PROPS = {
     "C04": P(["tri"], tb=TRI_TB, assumptions=TRI_AS,
              partial="acceptance is a theorem for every non-degenerate triangle (C04Triangle.triangle_accepted_general, vertical edges included) and every simple quadrilateral with distinct abscissae (C04Quad.quad_accepted: convex, reflex Bend, improper Start, merging End; two triangles, exact area, ghost order flag true); C04Ties/C04Order justify the comparator's tie rules and the list model of the B-tree; C04QuadV.quad_accepted_general removes the distinct-abscissae hypothesis (vertical edges, aligned vertices); C04Convex.convex_accepted: every strictly convex x-monotone polygon with n >= 3 vertices and distinct abscissae, any start vertex and orientation, yields n-2 non-degenerate triangles with input corners and total area |shoelace|, ghost flag true (induction over the event queue); C04Monotone.monotone_accepted: the same for every simple x-monotone polygon with distinct abscissae, reflex vertices on both chains allowed (the back-chain grows and is cut in fans: polygon-independent fan lemma nt_fwd_fan / nt_bwd_fan); C04General.general_accepted is the general theorem in general position: EVERY valid polygon set all of whose vertex abscissae are pairwise distinct (any number of components, holes, islands in holes to any depth, non-monotone polygons with splitting Starts and merging Ends, either orientation, any start vertex, any polygon order) is accepted with the ghost order flag true - validity stated with orientation determinants (edges without a common vertex are apart, no spikes), proved via an invariant GInv over an arbitrary number of active edges/intervals preserved by every handler (ginv_bend, ginv_end, ginv_start) and a proof that validity excludes crossings of the left-to-right edges; what remains outside theorems is input with equal abscissae / vertical edges beyond triangles and quadrilaterals (decided by exhaustive enumeration + structured generators, where such inputs are dense) and count/corners/area for non-monotone inputs"),
     "C15": P(["tri"], tb=TRI_TB, assumptions=TRI_AS,
-             partial="C15Heap proves for every input that the model never fails with a heap-encoding panic (model-bad-*), never reaches `unreachable`, and (over XQ) never indexes a missing registered edge (`index`): the only panic kind not excluded outright is a RefCell `borrow` conflict: C15Borrow proves it can only be raised in a pass that starts with a self-loop or coinciding partners among the edges registered with the vertex being handled, an executable monitor of exactly that condition (Model/SweepMon.lean, proved identical to the theorem's monitor in C15Monitor) runs in the driver next to every compared input, and the harness reports any input on which it drops (never observed; the prover's own search of 2.6e8 lattice inputs found none); the deep field-wise `==` of BTreeSet::range's sanity check is modelled by identity only"),
+             partial="C15Heap proves for every input that the model never fails with a heap-encoding panic (model-bad-*), never reaches `unreachable`, and (over XQ) never indexes a missing registered edge (`index`): C15General.general_total: for EVERY polygon set in general position (>= 3 vertices, distinct abscissae, no spikes, no vertex on another edge) the model returns either Ok (ghost flag true) or an Overlap error naming an input point - never a panic of any kind, never out-of-fuel, never another error; and Ok holds exactly when no two edges meet (general_accept_iff); for degenerate inputs the only panic kind not excluded outright is a RefCell `borrow` conflict: C15Borrow proves it can only be raised in a pass that starts with a self-loop or coinciding partners among the edges registered with the vertex being handled, an executable monitor of exactly that condition (Model/SweepMon.lean, proved identical to the theorem's monitor in C15Monitor) runs in the driver next to every compared input, and the harness reports any input on which it drops (never observed; the prover's own search of 2.6e8 lattice inputs found none); the deep field-wise `==` of BTreeSet::range's sanity check is modelled by identity only"),
     "C16": P(["tri"], tb=TRI_TB, assumptions=TRI_AS,
              partial="C16Quad.bowtie_rejected: every self-intersecting quadrilateral with distinct abscissae is rejected with an Overlap error at its second event (full path through the model, all rotations and orientations); C16Monotone.crossing_rejected: every polygon made of two x-monotone chains (any number of vertices, distinct abscissae) whose chains are not simple, with no vertex exactly on the other chain, is rejected with Overlap(Bend, p), and the crossing_rejected_at_* theorems say at which Bend: the one that creates the later of the two crossing edges (one event before the vertex on the wrong side is reached); C16General.crossing_rejected is the general theorem in general position: EVERY polygon set (any number of polygons, any nesting) with pairwise distinct vertex abscissae, no spikes and no vertex on another edge's line inside its abscissa range, in which two ring edges without a common vertex cross properly, is rejected with an Overlap error by sweep and sweepMon, no triangle list is ever returned, and the run stops strictly left of every point where two edges meet (crossing_rejected_where) - via an invariant XInv = sweep invariant + 'every neighbouring pair was tested', under which each handler either succeeds or returns Overlap and nothing else; degenerate inputs (equal abscissae, touching) are decided by exhaustive enumeration and generators; C16.lean covers the local crossing test"),
     "C07": P(["disp2d"], tb=DISP_TB, assumptions=DISP_AS,
@@ -216,7 +216,7 @@ LEVEL_TEXT["C04"].update({
     "note": "Equal abscissae / vertical edges are covered by theorems only for triangles and quadrilaterals, otherwise by exhaustive enumeration. Genuine defects repaired by fix commits 18aefee and 745c06b; overflow of coordinate differences / gradients recorded as known findings.",
     "technique": "Lean 4 general sweep-invariant proof (acceptance of every valid set in general position) + full-path theorems for small/equal-abscissa classes + exhaustive enumeration against the Lean-modelled sweep"})
 LEVEL_TEXT["C15"].update({
-    "text": LEVEL_TEXT["C15"]["text"] + " Added (all inputs): the model never fails with a heap-encoding panic, never reaches unreachable!(), never indexes a missing registered edge (C15Heap); a RefCell borrow panic can only arise from a pass that starts with a self-loop or coinciding partners among the registered edges (C15Borrow), a condition monitored by the driver on every compared input (C15Monitor: while it holds, no panic of any kind). Large polygons (to 40 000 vertices, 120 000 in the thorough tier) run in child processes on a 2 MiB stack.",
+    "text": LEVEL_TEXT["C15"]["text"] + " Added: C15General.general_total - in general position every run ends in Ok or in an Overlap error naming an input point (no panic, no out-of-fuel, no other error), and Ok characterises validity. Added (all inputs): the model never fails with a heap-encoding panic, never reaches unreachable!(), never indexes a missing registered edge (C15Heap); a RefCell borrow panic can only arise from a pass that starts with a self-loop or coinciding partners among the registered edges (C15Borrow), a condition monitored by the driver on every compared input (C15Monitor: while it holds, no panic of any kind). Large polygons (to 40 000 vertices, 120 000 in the thorough tier) run in child processes on a 2 MiB stack.",
     "note": "Genuine defects repaired by fix commits d71cca1 and 8c7e16d. The borrow-panic exclusion is conditional on the monitored link condition (never observed to fail); stack depth and allocation are executed, not modelled.",
     "technique": "Lean 4 invariant proofs (Hoare calculus over the heap-explicit sweep model) + executable ghost monitor + exhaustive panic search with model correspondence"})
 LEVEL_TEXT["C16"].update({
